@@ -48,8 +48,9 @@ LEVEL = {'text': 'Machine-checked refinement of a state machine (caches, object 
                  '(offset-exact lookups name a unit/entry start). What the bytes decode to is abstract (parse '
                  'functions of the file description); decoding itself is the subject of C04/C05/C06.'}
 RULE = ('cases: (file, history, last operation); bfs = every abstract state reachable within the depth bound x every '
-        'operation of the alphabet on 3 synthesized files (four alphabets: DWARF, ELF, call-frame decoding in every order '
-        '(two levels deeper), and interleaved iterators over the children of one entry (five levels deeper)), rnd = random histories on seed binaries with a Disturb '
+        'operation of the alphabet on 3 synthesized files (five alphabets: DWARF, ELF, call-frame decoding in every order '
+        '(two levels deeper), interleaved iterators over the children of one entry (five levels deeper), and a type-unit generator '
+        'interleaved with lookups by signature (two levels deeper)), rnd = random histories on seed binaries with a Disturb '
         'after every call (minimised when failing). distinct = hash(kind, file, history); non-trivial = history '
         'of length >= 2 or an operation that fills a cache')
 
@@ -1055,8 +1056,6 @@ def _hkey(name, history):
     return (name, repr(history))
 
 
-TYPE_UNIT_FILES = ['testfiles_for_dwarfdump/dwarf_v4_ticcs.elf']      # 119 type units in .debug_types
-
 RANDOM_FILES = [
     'testfiles_for_unittests/lib_versioned64.so.1.elf', 'testfiles_for_unittests/dwarf_v5_forms.debug',
     'testfiles_for_unittests/dwarf_lineprog_data16.elf', 'testfiles_for_unittests/dwarf_debug_types.elf',
@@ -1150,8 +1149,10 @@ def gen(ctx):
         if meta.get('broken'):
             cases.append(('tab', [name, []]))
             continue
-        for machine in ('D', 'E', 'DF', 'DN'):
-            d = {'DF': depth + 2, 'DN': depth + 5}.get(machine, depth)
+        for machine in ('D', 'E', 'DF', 'DN', 'DT'):
+            if machine == 'DT' and len(meta.get('tu_sigs', [])) < 2:
+                continue
+            d = {'DF': depth + 2, 'DN': depth + 5, 'DT': depth + 2}.get(machine, depth)
             edges, nstates, closed = explore(meta, machine, d)
             while len(edges) > budget and d > 1:      # never silently: the bound actually used is in the evidence
                 d -= 1
@@ -1161,20 +1162,6 @@ def gen(ctx):
             for h, a, st in edges:
                 _CACHE[_hkey(name, h)] = (a, st)
                 cases.append(('bfs', [name, h]))
-    for name in TYPE_UNIT_FILES:
-        try:
-            meta = load_file(name)
-        except Exception as ex:
-            ctx.notes.append('seed %s not usable: %s' % (name, ex))
-            continue
-        if len(meta.get('tu_sigs', [])) < 2:
-            continue
-        edges, nstates, closed = explore(meta, 'DT', depth)
-        stats['%s/DT' % name.split('/')[-1]] = dict(depth=depth, states=nstates, edges=len(edges), closed=closed,
-                                                     alphabet=len(alphabet(meta, 'DT')))
-        for h, a, st in edges:
-            _CACHE[_hkey(name, h)] = (a, st)
-            cases.append(('bfs', [name, h]))
     # long random histories with a Disturb after every call
     n_hist = ctx.scale(1, 6)
     total = ctx.scale(1000, 100000)
